@@ -413,6 +413,21 @@ func ruleRangeWindow(r *Run) {
 	nx := p.Method(metricPkg, "rangeAggIterator", "Next")
 	anchor := r.Ob("ANCHOR", "logqlmetric.rangeAggIterator", "anchor methods resolve")
 	anchor.Trivial = true
+	evictInline := false
+	if cw == nil && fw != nil {
+		// eviction inlined into the admission routine: the loop over the window map is the eviction
+		hasRange := false
+		allInstrs(fw, func(in ssa.Instruction) {
+			if rg, ok := in.(*ssa.Range); ok {
+				if f, _, ok := loadOfField(rg.X); ok && f == "window" {
+					hasRange = true
+				}
+			}
+		})
+		if hasRange {
+			cw, evictInline = fw, true
+		}
+	}
 	if fw == nil || cw == nil || nx == nil {
 		anchor.Fail("-", "fillWindow/clearWindow/Next not found")
 		return
@@ -504,8 +519,18 @@ func ruleRangeWindow(r *Run) {
 		for _, g := range funcGroup(fw) {
 			inFw[g] = true
 		}
+		var evictAt ssa.Instruction
+		if evictInline {
+			allInstrs(fw, func(in ssa.Instruction) {
+				if rg, ok := in.(*ssa.Range); ok {
+					if f, _, ok := loadOfField(rg.X); ok && f == "window" {
+						evictAt = rg
+					}
+				}
+			})
+		}
 		for _, gf := range fwGrp {
-			if gf == cw {
+			if gf == cw && !evictInline {
 				continue
 			}
 			for _, c := range callsIn(gf) {
@@ -520,15 +545,24 @@ func ruleRangeWindow(r *Run) {
 				}
 			}
 		}
-		if clearCall == nil || nextCall == nil || fillCall == nil {
-			bad = true
-			ob.Fail(r.pos(fw.Pos()), "clearWindow call=%v iterator Next call=%v fillWindow call=%v", clearCall != nil, nextCall != nil, fillCall != nil)
-		} else {
-			if !runsBefore(clearCall, nextCall, root, fwGrp) {
+		if evictInline && evictAt != nil && nextCall != nil && fillCall != nil {
+			if !runsBefore(evictAt, nextCall, root, fwGrp) {
 				bad = true
 				ob.Fail(r.pos(nextCall.Pos()), "samples are read before the window was cleared")
 			}
-			if originValueIn(clearCall.Common().Args[1], fwGrp) != originValueIn(fillCall.Common().Args[1], fwGrp) {
+		}
+		if evictInline && evictAt != nil {
+			// fall through to the checks on the read below with the eviction standing for the call
+		}
+		if (clearCall == nil && !(evictInline && evictAt != nil)) || nextCall == nil || fillCall == nil {
+			bad = true
+			ob.Fail(r.pos(fw.Pos()), "clearWindow call=%v iterator Next call=%v fillWindow call=%v", clearCall != nil, nextCall != nil, fillCall != nil)
+		} else {
+			if clearCall != nil && !runsBefore(clearCall, nextCall, root, fwGrp) {
+				bad = true
+				ob.Fail(r.pos(nextCall.Pos()), "samples are read before the window was cleared")
+			}
+			if clearCall != nil && originValueIn(clearCall.Common().Args[1], fwGrp) != originValueIn(fillCall.Common().Args[1], fwGrp) {
 				bad = true
 				ob.Fail(r.pos(clearCall.Pos()), "clearWindow is given %s, not windowStart", describe(clearCall.Common().Args[1], 0))
 			}
